@@ -97,6 +97,19 @@ theorem c15_oldest_first (limit : Nat) (sizes : List Nat) :
       ∀ k, k < (shrink limit sizes).1.length → (sizes.drop k).sum > limit :=
   shrink_spec limit sizes
 
+/-- **C15 (after start-up retention still works on the age order).**  `loader.load` lists the sealed fractions in id
+(= creation) order and the replayed ones behind them in id order.  Whenever every unsealed fraction is newer than every
+sealed one - the situation after any clean stop, after any crash that did not interrupt a background seal, and from the
+second start after one that did (the first start seals the recovered fraction) - that list is the age order, so
+`shrinkSizes` (`c15_oldest_first`) removes the oldest data first.  The exception is the recorded open finding
+`restart-order-unsealed-after-sealed`.  The source facts used (one `sort.Strings(fracIDs)`, no other sort; replay
+inside the loop over the unsealed fractions, no goroutine) are pinned by `c15_x_load_order`. -/
+theorem c15_load_order_is_age_order (fr : List (Nat × Bool)) (hs : (fr.map (·.1)).Pairwise (· < ·))
+    (h : ∀ x ∈ fr, ∀ y ∈ fr, x.2 = false → y.2 = true → x.1 < y.1) (limit : Nat) (size : Nat → Nat) :
+    loadOrder fr = fr.map (·.1) ∧
+      (shrink limit ((loadOrder fr).map size)).1 ++ (shrink limit ((loadOrder fr).map size)).2 = (fr.map (·.1)).map size :=
+  ⟨loadOrder_age fr hs h, by rw [(shrink_spec limit _).1, loadOrder_age fr hs h]⟩
+
 /-- **C15 (the cache file is irrelevant).**  In every reachable state the loader decides and loads the same whether
 or not `.frac-cache` has an entry for the fraction (a missing, stale or unreadable cache only costs a header read). -/
 theorem c15_cache_irrelevant (c : Cfg) (r : Role) (fs : FileSet) (h : Reach c srcFacts orphanFatal r fs) (cached : Bool) :
@@ -204,6 +217,12 @@ theorem c15_x_replay_cancel :
         "buf := make([]byte, l)", "n, err := r.limiter.ReadAt(r.file, buf, offset)", "return buf, uint64(n), err"] := by
   decide
 
+/-- `loader.load` sorts the fraction ids and nothing else, and replays the unsealed fractions one after the other inside
+its loop over them (no goroutine, no re-ordering) -/
+theorem c15_x_load_order :
+    loadSortCalls = ["sort.Strings(fracIDs)"] ∧
+      replayLoopCalls = ["a.Replay", "removeFractionFiles", "l.fracProvider.newActiveRef"] := by decide
+
 /-! ## Non-vacuity -/
 
 /-- reachable states exist for every role: a created and filled fraction is held as active ... -/
@@ -220,6 +239,8 @@ example (c : Cfg) (f : Facts) :
 example : ¬ Del { sdocs := .full, index := .full } ∧ ShapeS ⟨false, false⟩ { sdocs := .full, index := .full } ∧
     run (sealedSuicideOps.take 2) { sdocs := .full, index := .full } ≠ { sdocs := .full, index := .full } := by
   refine ⟨by simp [Del], by simp [ShapeS], by decide⟩
+
+example : loadOrder [(1, false), (2, false), (3, true)] = [1, 2, 3] ∧ loadOrder [(1, true), (2, false)] = [2, 1] := by decide
 
 example : shrink 10 [4, 5, 3, 6] = ([4, 5], [3, 6]) := by decide
 
